@@ -13,7 +13,8 @@ LEVEL = "exploration"
 RULE = (
     "Hypothesis-generated image programs (1-2 four-dimensional NHWC inputs plus an optional vector input; steps drawn from conv (nnx.Conv / "
     "lax.conv_general_dilated), avg/max pooling, batch-norm style scale+bias, residual add of the second image, relu/tanh, internal transposes, "
-    "spatial reductions; 1-3 outputs mixing 4-D and lower-rank values, passthrough and duplicated outputs; static or symbolic batch) x every subset "
+    "spatial reductions; 1-4 outputs mixing 4-D and lower-rank values, 4-D keepdims reductions taken directly behind the input boundary, passthrough "
+    "and duplicated outputs incl. one reduction result observed twice under different flags; static or symbolic batch) x every subset "
     "of eligible input and output indices (quick: up to 6 subsets per program) plus invalid requests (out of range, negative, duplicate, non-4-D, bool). "
     "Oracle (metamorphic + reference): ORT(flagged)(P.x) == P.ORT(plain)(x) on selected outputs and identical on the others, both equal eager JAX; "
     "declared I/O shapes are the permuted ones; invalid requests raise ValueError. non-trivial = non-empty index subset; distinct by (program digest, subset)."
